@@ -402,6 +402,8 @@ def run(ctx):
     # "does not depend on the stream buffer size": carried state built from samples the call did not consume changes with how
     # much input happened to be waiting (seed s8-c06) - same rule as C08.R10
     from . import c08, c19
+    c08.rule_r14(facts, ctx, rule_id="C06.R8")          # frames cut at a point that depends on the free output space (seed s9-c06)
+    ctx.floor("C06.R8", 1, "write windows processed in frames (same rule as C08.R14)")
     c08.rule_r10(facts, c19._Retag(ctx, "C08.R10", "C06.R7"))
     ctx.floor("C06.R7", 10, "hand-written work() bodies that consume part of a window (same rule as C08.R10)")
     ctx.floor("C06.R4", 60, "WaitForStream verdicts with a visible amount (no demand that grows with a peer's backlog)")
